@@ -300,6 +300,10 @@ def sources(draw, d=2, max_len=5, min_len=0, kinds=("cold", "cold", "hot", "sync
     kind = draw(st.sampled_from(list(kinds)))
     n = draw(st.integers(min_len, max_len))
     g = gaps_around(d)
+    if max_len > 6 and draw(st.integers(0, 1)) == 0:
+        # deep (thorough) timelines: half of them dense, so that many elements are pending / inside one window at once
+        n = draw(st.integers(max(min_len, 6), max_len))
+        g = st.sampled_from([0, 0, 1, 1, 2])
     t = 0
     tl = []
     for i in range(n):
